@@ -143,3 +143,14 @@ claim("C14",
       "at most one div per language; SAMI language codes not prefixes of each other on the "
       "read side; legacy writer's documented fallback for an unknown force is not judged",
       "DESIGN.md 3/C14")
+claim("C11",
+      "Hypothesis flat style spans at generated boundaries; DFXP/SAMI round trips and cross "
+      "conversions compared per character; WebVTT output tokenised by an independent cue-text "
+      "tokenizer; bracket-matching of STYLE nodes for every reader-produced caption",
+      "Generated-input search: 3k (thorough 100k) sets through DFXP>DFXP, SAMI>SAMI, DFXP>SAMI, "
+      "SAMI>DFXP (per-character italic / bold / underline flags, output balance by strict XML "
+      "and an html.parser tag stack), 6k (200k) sets through WebVTTWriter (i/b/u nesting and "
+      "flags), and balance of STYLE nodes for all captions read from the 162 repository "
+      "documents, generated DFXP/SAMI documents and generated SCC programs.",
+      "flat balanced spans without layouts on the input side; DFXP judged for italics only",
+      "DESIGN.md 3/C11")
